@@ -107,3 +107,6 @@ Theorem parafac2_projection_descent_partial J R' K (Pold Pnew X M : fmat) :
 Proof.
   intros Ho Hn HP. rewrite !parafac2_residual by assumption. specialize (HP Pold Ho). lra.
 Qed.
+
+(* witness used by the non-vacuity example in Props/C07.v: the first unit vector of R^2 as a 2 x 1 matrix *)
+Definition e1 : fmat := fun i j => match i, j with O, O => 1 | _, _ => 0 end.
